@@ -243,7 +243,7 @@ for k in ('portnum', 'portadr', 'class', 'symbolic'):
     def_epath('route_path', [k], 'quick')
     def_epath('EPATH_single', [k], 'quick')
     def_epath('EPATH_padded', [k], 'thorough')
-def_epath('route_path', ['portnum', 'portnum'], 'thorough', timeout=1800)
+def_epath('route_path', ['portnum', 'portnum'], 'quick', timeout=1800)
 for pair in itertools.product(ALLK, ALLK):
     if 'epath_EPATH_%s_%s' % pair not in globals():
         def_epath('EPATH', list(pair), 'thorough', timeout=3000, n=2 if ('portadr' in pair or pair == ('symbolic', 'symbolic')) else 3)
